@@ -97,6 +97,8 @@ pub struct IModule {
     pub mem_pages: u32,
     pub exports: Vec<(String, u32)>,
     pub tag_types: Vec<u32>,
+    /// table 0 as function indices (only what active function-index element segments put there)
+    pub table0: Vec<u32>,
 }
 
 const NONE: usize = usize::MAX;
@@ -188,6 +190,16 @@ pub fn load(bytes: &[u8]) -> Result<IModule, InterpError> {
             Payload::TagSection(r) => {
                 for t in r {
                     m.tag_types.push(t.map_err(|e| InterpError::Malformed(e.to_string()))?.func_type_idx);
+                }
+            }
+            Payload::ElementSection(r) => {
+                for e in r {
+                    let e = e.map_err(|e| InterpError::Malformed(e.to_string()))?;
+                    if let (wasmparser::ElementKind::Active { .. }, wasmparser::ElementItems::Functions(fs)) = (&e.kind, &e.items) {
+                        for f in fs.clone() {
+                            m.table0.push(f.map_err(|e| InterpError::Malformed(e.to_string()))?);
+                        }
+                    }
                 }
             }
             Payload::MemorySection(r) => {
@@ -520,6 +532,17 @@ impl<'a> Interp<'a> {
                             }
                         }
                     }
+                }
+                Operator::ReturnCallIndirect { .. } => {
+                    let idx = pop_i32!();
+                    let Some(target) = self.m.table0.get(idx as usize).copied() else {
+                        return Ok(Flow::Trap(Trap::OutOfBounds));
+                    };
+                    let (p, _) = &self.m.types[self.m.func_types[target as usize] as usize];
+                    let n = stack.len();
+                    let args: Vec<Val> = stack[n - p.len()..].to_vec();
+                    self.emit(Event::Exit { f, pc, how: ExitHow::ReturnCall });
+                    return Ok(Flow::TailCall(target, args));
                 }
                 Operator::ReturnCall { function_index } => {
                     let (p, _) = &self.m.types[self.m.func_types[*function_index as usize] as usize];
